@@ -100,6 +100,10 @@ func main() {
 		}
 		return map[string]interface{}{"runs": runs, "from": lo, "to": hi - 1}
 	}
+	// {"cp":c} -> {"in":bool}
+	commands["idin"] = func(in map[string]interface{}) map[string]interface{} {
+		return map[string]interface{}{"in": syntax.IdInRange(rune(int(in["cp"].(float64))))}
+	}
 	// {"cps":[...]} -> {"tokens":[[type,start,end,[literal]]...],"end":"eof"|"error"|"limit","err":{...}}
 	commands["tokens"] = func(in map[string]interface{}) map[string]interface{} {
 		src := hlib.RunesOfCps(in["cps"])
